@@ -16,7 +16,7 @@ def is_signal(spec, e, inside=False):
     """does the expression depend on time (outside at_t0/at_tf/integral/sum wrappers)?"""
     if not isinstance(e, E):
         return False
-    if e.op in ('at_t0', 'at_tf', 'integral', 'integral_control', 'sum'):
+    if e.op in ('at_t0', 'at_tf', 'integral', 'integral_control', 'sum', 'wsum'):
         return False
     if e.op in SIGNAL_LEAVES:
         return True
@@ -115,6 +115,13 @@ class Ref:
             return self.at_node(e, 0)
         if op == 'at_tf':
             return self.at_node(e, N)
+        if op == 'wsum':
+            kind, r_, c_, w = node.a[:4]
+            tot = self.dom.const(0)
+            for wi, comp in zip(w, node.a[4:]):
+                inner = {'sum': E('sum', comp, False), 'sum+': E('sum', comp, True), 'at_tf': E('at_tf', comp), 'at_t0': E('at_t0', comp)}[kind]
+                tot = tot + self.dom.const(wi) * self.top_wrap(inner.op, inner)
+            return tot
         if op == 'sum':
             ks = list(range(N)) + ([N] if node.a[1] else [])
             r = self.dom.const(0)
